@@ -911,7 +911,11 @@ func (x *Exec) unrollLoop(st *State, ls *loopSpec, k cont, depth int) {
 	if ls.pre != nil {
 		ls.pre(st)
 	}
-	x.block(st, ls.body, next)
+	x.anchor(st, fmt.Sprintf("in loop %d", ls.ord), ls.bodyPos, ls.ord)
+	x.block(st, ls.body, func(s *State) {
+		x.anchor(s, fmt.Sprintf("end loop %d", ls.ord), ls.bodyPos, ls.ord)
+		next(s)
+	})
 	x.brk = x.brk[:nb-1]
 	x.cont = x.cont[:nc-1]
 }
